@@ -14,12 +14,20 @@ os.makedirs(dst, exist_ok=True)
 for f in ("patch.diff", "demo.rs", "notes.md"):
     if os.path.exists(f"{src}/{f}"):
         shutil.copy(f"{src}/{f}", f"{dst}/{f}")
-caught, missed = {}, []
+caught, missed, first_missed, strengthened = {}, [], [], []
 for line in res.splitlines():
     mm = re.match(r"^(C\d\d) CAUGHT:\s*(.*)", line)
-    if mm: caught[mm.group(1)] = mm.group(2)[:300]
+    if mm:
+        caught[mm.group(1)] = mm.group(2)[:300]
+        if mm.group(1) in missed: missed.remove(mm.group(1))
+        continue
+    mm = re.match(r"^(C\d\d) MISSED-FIRST-RUN", line)
+    if mm:
+        first_missed.append(mm.group(1)); continue
     mm = re.match(r"^(C\d\d) MISSED", line)
-    if mm: missed.append(mm.group(1))
+    if mm and mm.group(1) not in missed: missed.append(mm.group(1))
+    mm = re.match(r"^== re-run after strengthening (.*)", line)
+    if mm: strengthened.append(mm.group(1))
 extra = {}
 if len(sys.argv) > 4:
     extra = json.loads(sys.argv[4])
@@ -39,6 +47,9 @@ meta = {
     "caught_by": caught,
     "missed_by": missed,
 }
+if first_missed:
+    meta["missed_on_first_run_by"] = first_missed
+    meta["first_run"] = "MISSED by " + ", ".join(first_missed) + " on the first run; caught after strengthening " + "; ".join(strengthened)
 meta.update({k: v for k, v in extra.items() if k not in ("needs", "caught_after_strengthening")})
 json.dump(meta, open(f"{dst}/meta.json", "w"), indent=1)
 print("kept", dst, "caught by", list(caught), "missed by", missed)
